@@ -261,6 +261,7 @@ type mcode struct {
 	Req        int
 	IssuedDone bool // request was completed when this code was handed out
 	Redeemed   bool
+	Faulted    bool // handed out by a callback in which a storage call failed: nothing is owed for it
 }
 
 type S struct {
@@ -608,7 +609,7 @@ func (p *part) exec(r *rig.Rig, s *S, op string, fp *faultPlan) engine.Result {
 			code = u.Query().Get("code")
 		}
 		if code != "" {
-			s.Codes = append(s.Codes, mcode{Code: code, Req: i, IssuedDone: rq.Done})
+			s.Codes = append(s.Codes, mcode{Code: code, Req: i, IssuedDone: rq.Done, Faulted: faulted()})
 		}
 		if faulted() {
 			// one storage call of this callback failed: an error answer is fine and
@@ -673,7 +674,7 @@ func (p *part) judge(s *S, k int, ca caller, uri, ver, channel string) verdict {
 	if rq.Gone {
 		either = "x-either-sibling-code-redeemed"
 	}
-	if rq.Unsure {
+	if rq.Unsure || code.Faulted {
 		either = "x-either-after-faulted-request"
 	}
 	// client: the AUTHENTICATED one counts, whatever client_id the form claims
@@ -1007,7 +1008,7 @@ func canon(s S) string {
 				st = "->" + strconv.Itoa(j)
 			}
 		}
-		fmt.Fprintf(&b, "K%d{%d %v %v %s}", i, k.Req, k.IssuedDone, k.Redeemed, st)
+		fmt.Fprintf(&b, "K%d{%d %v %v %v %s}", i, k.Req, k.IssuedDone, k.Redeemed, k.Faulted, st)
 	}
 	for c := range s.St.Codes {
 		if !known[c] {
@@ -1039,7 +1040,9 @@ func TestCheck(t *testing.T) {
 		"all steps happen at one fake instant (synctest bubble, Epoch+1h); code expiry is the storage's business and not modelled",
 		"access tokens are opaque (AES-sealed token id); the stored token record stands in for introspection",
 	)
-	depth := engine.Pick(c, 7, 8)
+	// thorough: the wide alphabet (3 requests, 4 codes, method-less challenge) to depth 7 and, as
+	// separate parts, the quick alphabet one level deeper. (Wide AND depth 8 in one search needs
+	// ~8 million transitions in the last level alone: beyond the engine's memory budget.)
 	chs := engine.Pick(c, []string{"none", "S256", "plain"}, []string{"none", "S256", "plain", "nomethod"})
 	var parts []*part
 	for router := 0; router < 2; router++ {
@@ -1047,8 +1050,18 @@ func TestCheck(t *testing.T) {
 			name: rig.Routers[router], router: router,
 			authClients: []string{"web", "pub", "jwt"}, chs: chs,
 			callers: callersFor("web", "web2", "pub", "jwt", "jwt+owner", "api", "anon"),
-			maxReqs: engine.Pick(c, 2, 3), maxAlive: 2, maxPerReq: 2, maxCodes: engine.Pick(c, 3, 4), depth: depth,
+			maxReqs: engine.Pick(c, 2, 3), maxAlive: 2, maxPerReq: 2, maxCodes: engine.Pick(c, 3, 4), depth: 7,
 		})
+	}
+	if c.Thorough() {
+		for router := 0; router < 2; router++ {
+			parts = append(parts, &part{
+				name: rig.Routers[router] + "-deep", router: router,
+				authClients: []string{"web", "pub", "jwt"}, chs: []string{"none", "S256", "plain"},
+				callers: callersFor("web", "web2", "pub", "jwt", "jwt+owner", "api", "anon"),
+				maxReqs: 2, maxAlive: 2, maxPerReq: 2, maxCodes: 3, depth: 8,
+			})
+		}
 	}
 	// client_secret_post clients with op.Config.AuthMethodPost on / off
 	for router := 0; router < 2; router++ {
